@@ -773,10 +773,10 @@ func TestC10_Pedersen(t *testing.T) {
 	ev := evFor("C10")
 	ev.Rule(c10Rule)
 	ev.Assume("justifications are not authenticated by the VSS layer itself (the DKG layers authenticate bundles): forged justification signatures are not in the menu; a verifier that received a self-consistent deal with another threshold may approve it (its approval carries another session id and is refused by everybody else)")
-	rcheck(t, 500, 15000, func(t *rapid.T) { c10History(t, ev, vssPedersen) })
+	rcheck(t, 500, 90000, func(t *rapid.T) { c10History(t, ev, vssPedersen) })
 }
 
 func TestC10_Rabin(t *testing.T) {
 	ev := evFor("C10")
-	rcheck(t, 500, 15000, func(t *rapid.T) { c10History(t, ev, vssRabin) })
+	rcheck(t, 500, 90000, func(t *rapid.T) { c10History(t, ev, vssRabin) })
 }
